@@ -325,6 +325,13 @@ func c14Garbage(secret string, now time.Time) int {
 // from the loop body of performStateCleanup, see lib/checks/loopbody.py); nil if that failed
 var c14CleanupOnce func(*RuntimeState)
 
+func c14LockText(lo, t int64) string {
+	if lo == 0 {
+		return "never set"
+	}
+	return fmt.Sprintf("ends %d s later", (lo-t)/1e9)
+}
+
 // the attempts and cleanup passes of one user so far, for the replay file
 func c14History(obs []c14TotpObs, ui int) []string {
 	var h []string
@@ -1434,7 +1441,7 @@ Print c14_okta_violating.
 								key, extra = "C14:totp:no-lockout:cleanup-pass", " (cleanup passes ran between these failures)"
 							}
 							res.hit(verifHit{Key: key + srcKey, Oracle: "the 5k-th consecutive failure locks verification out for k hours",
-								What: fmt.Sprintf("%s: consecutive failure no. %d%s%s; lock-out ends %d s later (expected %d s)", users[ui], streak, extra, srcNote, (o.lo-o.t)/1e9, k*3600), Case: map[string]interface{}{"scenario": s, "failures": streak, "history": c14History(obs[:oi+1], ui)}})
+								What: fmt.Sprintf("%s: consecutive failure no. %d%s%s; lock-out %s (expected to end %d s later)", users[ui], streak, extra, srcNote, c14LockText(o.lo, o.t), k*3600), Case: map[string]interface{}{"scenario": s, "failures": streak, "history": c14History(obs[:oi+1], ui)}})
 						}
 						lockedUntil, lockK = want, k
 					}
@@ -1500,22 +1507,22 @@ Fixpoint totp_agree (m : users) (l : list (N * Z * Z * bool * (Z * Z * Z * Z))) 
 	// submitted code / -1 no step / -2 cleanup pass, accepted, (remembered, persisted) step of the last success
 	// before, entry after, (remembered, persisted) after) vs attempt_src on the observed pre-state
 	coq.WriteString(`Definition code_of (z : Z) : code := if z <? 0 then Wrong else Matches z.
-Fixpoint src_agree (m : users) (l : list (N * Z * bool * Z * bool * (Z * Z) * (Z * Z * Z * Z) * (Z * Z))) (i : nat) : list nat :=
-  match l with [] => [] | (u, t, cached, cz, ok, (pm, pp), obs, (qm, qp)) :: r =>
+Fixpoint src_agree (m : users) (l : list ((N * Z * Z * bool * (Z * Z * Z * Z)) * (bool * Z * (Z * Z) * (Z * Z)))) (i : nat) : list nat :=
+  match l with [] => [] | ((u, t, _, ok, obs), (cached, cz, (pm, pp), (qm, qp))) :: r =>
     let good :=
       if cz =? -2 then entry_same (cleanup totp_k purge_never (m u) t) obs && (qm =? pm)
       else let (s1, o) := attempt_src totp_k true cached {| thr := m u; mem := pm; persisted := pp |} t (code_of cz) in
            Bool.eqb (accepted o) ok && entry_ok (thr s1) obs && (mem s1 =? qm) && (persisted s1 =? qp) in
     (if good then [] else [i]) ++ src_agree (upd m u (rl_of obs)) r (S i) end.
 `)
-	coq.WriteString("Definition totp_src_cases : list (list (N * Z * bool * Z * bool * (Z * Z) * (Z * Z * Z * Z) * (Z * Z))) := [\n")
+	coq.WriteString("Definition totp_src_extra : list (list (bool * Z * (Z * Z) * (Z * Z))) := [\n")
 	for si, obs := range scen {
 		coq.WriteString(" [")
 		for i, o := range obs {
 			if i > 0 {
 				coq.WriteString(";")
 			}
-			coq.WriteString(fmt.Sprintf("(%d%%N,%d,%s,%d,%s,(%d,%d),(%d,%d,%d,%d),(%d,%d))", o.user, o.tm, coqBool(o.cached), o.code, coqBool(o.ok), o.preMem, o.prePers, o.lc, o.fc, o.lf, o.lo, o.postMem, o.postPer))
+			coq.WriteString(fmt.Sprintf("(%s,%d,(%d,%d),(%d,%d))", coqBool(o.cached), o.code, o.preMem, o.prePers, o.postMem, o.postPer))
 		}
 		coq.WriteString("]")
 		if si < len(scen)-1 {
@@ -1523,7 +1530,7 @@ Fixpoint src_agree (m : users) (l : list (N * Z * bool * Z * bool * (Z * Z) * (Z
 		}
 		coq.WriteString("\n")
 	}
-	coq.WriteString("].\nDefinition c14_totp_src_mismatches := Eval vm_compute in mismatches (fun l => match src_agree (fun _ => rl0) l 0 with [] => false | _ => true end) totp_src_cases.\nPrint c14_totp_src_mismatches.\n")
+	coq.WriteString("].\nDefinition totp_src_cases := map (fun p => combine (fst p) (snd p)) (combine totp_cases totp_src_extra).\nDefinition c14_totp_src_mismatches := Eval vm_compute in mismatches (fun l => match src_agree (fun _ => rl0) l 0 with [] => false | _ => true end) totp_src_cases.\nPrint c14_totp_src_mismatches.\n")
 	coq.WriteString("Definition c14_totp_src_first := Eval vm_compute in match c14_totp_src_mismatches with [] => [] | i :: _ => src_agree (fun _ => rl0) (nth i totp_src_cases []) 0 end.\nPrint c14_totp_src_first.\n")
 	coq.WriteString("Definition c14_totp_mismatches := Eval vm_compute in mismatches (fun l => match totp_agree (fun _ => rl0) l 0 with [] => false | _ => true end) totp_cases.\nPrint c14_totp_mismatches.\n")
 	coq.WriteString("Definition c14_totp_first := Eval vm_compute in match c14_totp_mismatches with [] => [] | i :: _ => totp_agree (fun _ => rl0) (nth i totp_cases []) 0 end.\nPrint c14_totp_first.\n")
